@@ -129,10 +129,11 @@ impl Property for C07 {
             "a port is asserted only if exactly one device is selected under the strict reading, or none (floating bus); multi-device addresses and addresses the strict reading leaves open are don't-care (counted in truncated_ambiguous)",
             "floating bus inside the fetch window: value must be 0xFF or a display/attribute byte of the current picture line within +-4 columns of the beam; on the 128K either screen bank is accepted",
             "EAR (bit 6) is asserted as 0 with no tape inserted; AY read-back may be masked to the register's implemented bits",
+            "a port claimed by the extender belongs to the extender alone: the access reaches it and no built-in device, even where the address would otherwise select one (reading of 'receives exactly the ports it claims' together with the decode chain, which asks the extender first)",
         ]
     }
     fn expected_probes(&self) -> Vec<&'static str> {
-        vec!["ula_read", "ula_write", "paging_write", "ay_select", "ay_data", "ay_read", "kempston_read", "mouse_read", "extender_read", "extender_write", "floating_border", "floating_fetch", "unclaimed_write", "multi_device_skipped", "paging_alias", "ay_alias", "ear_follows_tape", "floating_exact", "extender_installed_late", "extender_replaced", "extender_claims_changed", "snapshot_loaded_midrun", "ula_same_value_again"]
+        vec!["ula_read", "ula_write", "paging_write", "ay_select", "ay_data", "ay_read", "kempston_read", "mouse_read", "extender_read", "extender_write", "floating_border", "floating_fetch", "unclaimed_write", "multi_device_skipped", "paging_alias", "ay_alias", "ear_follows_tape", "floating_exact", "extender_installed_late", "extender_replaced", "extender_claims_changed", "snapshot_loaded_midrun", "ula_same_value_again", "ay_disabled_in_settings", "ay_toggled_by_setter", "extender_only_port", "extender_overrides_builtin"]
     }
 
     fn gen(&self, rng: &mut Rng, _tier: Tier, _idx: u64) -> Scenario {
@@ -144,6 +145,10 @@ impl Property for C07 {
         sc.set("tape", rng.chance(1, 4) as i64);
         // host actions in the middle of the access history: snapshot loads; extender installed late,
         // replaced, or changing its claims
+        // the AY is part of the machine whether or not the host mixes its sound: enabled in the settings
+        // or not, and switched through set_ay_enabled() while running
+        sc.set("ay", rng.chance(2, 3) as i64);
+        sc.set("ay_toggle", rng.chance(1, 3) as i64);
         sc.set("snap_every", *rng.pick(&[0i64, 0, 25, 60]));
         sc.set("ext_dyn", rng.chance(1, 2) as i64);
         sc.set("seed", (rng.next() >> 2) as i64);
@@ -154,7 +159,12 @@ impl Property for C07 {
     fn exec(&self, sc: &Scenario, ctx: &mut RunCtx) -> Result<(), Fail> {
         let m128 = sc.get("m128") != 0;
         let conf = Conf { m128, kempston: sc.get("kempston") != 0, mouse: sc.get("mouse") != 0 };
-        let cfg = MCfg { m128, kempston: conf.kempston, mouse: conf.mouse, ay: true, ..Default::default() };
+        let ay_on = sc.get("ay") != 0;
+        let ay_toggle = sc.get("ay_toggle") != 0;
+        if !ay_on {
+            ctx.probe("ay_disabled_in_settings");
+        }
+        let cfg = MCfg { m128, kempston: conf.kempston, mouse: conf.mouse, ay: ay_on, ..Default::default() };
         let ula = RefUla::new(m128);
         let f = ula.frame;
         let mut e = new_emu(&cfg);
@@ -260,6 +270,10 @@ impl Property for C07 {
         let mut ext_log_len = 0usize;
         let n = sc.get("n").clamp(0, 5000);
         for idx in 0..n {
+            if ay_toggle && rng.below(30) == 0 {
+                ctx.probe("ay_toggled_by_setter");
+                e.set_ay_enabled(rng.bool());
+            }
             // ---- host actions between two accesses
             if has_ext && ext_dyn {
                 let ev = if idx == ext_install_at { 0 } else if ext_installed { rng.below(24) } else { 99 };
@@ -419,17 +433,26 @@ impl Property for C07 {
                     ctx.probe("extender_write");
                 }
                 ext_log_len += 1;
-                // whether other devices also see a claimed port is not stated: resynchronise canaries
-                border = e.border_color() as u8;
-                latch = e.verif_paging().0;
-                if devs.contains(&Dev::AySel) && write {
-                    ay_sel = (v & 0x0F) as usize;
-                    ay_resync(&mut e, &mut ay_regs, &mut ay_sel, ayp);
+                {
+                    // a claimed port is the extender's: no built-in device may see the access, whether or not
+                    // the address would select one without the extender (the decode chain asks the extender
+                    // first; hosts rely on it, e.g. an even debug port must not reach the ULA)
+                    if devs.is_empty() && !dontcare {
+                        ctx.probe("extender_only_port");
+                    } else {
+                        ctx.probe("extender_overrides_builtin");
+                    }
+                    let ay_now = e.verif_bus().read_io(ayp);
+                    let expv = ay_regs[ay_sel];
+                    if e.border_color() as u8 != border || (m128 && e.verif_paging().0 != latch) || (ay_now != expv && ay_now != expv & AY_MASK[ay_sel]) {
+                        return Err(Fail::new(
+                            "C07.extender_side_effect",
+                            &format!("machine={},write={}", machine, write as u8),
+                            format!("port {:04X} is claimed by the extender (built-in devices the address would otherwise select: {}), yet the {} changed the border colour, the paging latch or the AY register read-back", port, describe(&devs), if write { "OUT" } else { "IN" }),
+                        ));
+                    }
+                    continue;
                 }
-                if devs.contains(&Dev::AyData) && write {
-                    ay_resync(&mut e, &mut ay_regs, &mut ay_sel, ayp);
-                }
-                continue;
             }
             // an unclaimed port must never reach the extender
             if let Some(x) = e.io_extender() {
